@@ -8,7 +8,7 @@
 From Coq Require Import ZArith NArith String List Bool.
 From Sidetree Require Import Base.Sha2 Json.Json Json.Jcs Sidetree.Protocol Sidetree.Hashing Sidetree.Parser Sidetree.Applier
      Json.JcsProps Json.JcsRoundTrip Sidetree.JequivDecode Sidetree.ClientCreate
-     Sidetree.Rules Sidetree.Validator Sidetree.ClientUpdate Sidetree.ClientDeactivateRecover Sidetree.Resolve Sidetree.Composer Sidetree.ClientApply Sidetree.ClientSimple Sidetree.ClientApplySigned Sidetree.Lifecycle Sidetree.Window Sidetree.ClientWindowed Sidetree.ClientWindowedDR Sidetree.ClientWindowedApply.
+     Sidetree.Rules Sidetree.Validator Sidetree.ClientUpdate Sidetree.ClientDeactivateRecover Sidetree.Resolve Sidetree.Composer Sidetree.ClientApply Sidetree.ClientSimple Sidetree.ClientApplySigned Sidetree.Lifecycle Sidetree.Window Sidetree.ClientWindowed Sidetree.ClientWindowedDR Sidetree.ClientWindowedApply Sidetree.Anchored Sidetree.ValidatorJequiv Sidetree.ComposerOrder Sidetree.ApplierOrder Sidetree.AnchoredApply.
 Import ListNotations.
 Open Scope string_scope.
 
@@ -334,6 +334,140 @@ Theorem C08_lifecycle_built_applies : forall cfg u n ci cbytes ca us1 ri rbytes 
     rm_created rm5 = an_time ca.
 Proof. exact lifecycle_built_applies. Qed.
 Print Assumptions C08_lifecycle_built_applies.
+
+(* Converting an accepted request to its anchored form (model.GetAnchoredOperation: the canonical
+   encoding of the request struct rebuilt from the parsed operation) preserves it: the anchored
+   bytes - when within the operation size limit; re-spelling a number can lengthen a request - are
+   accepted again and denote the same operation.  Deactivate: the very same parsed operation.
+   Update / recover: the same but for the member order of the patches.  Create: the same suffix,
+   commitments and delta hash; anchor origin and patches up to member order (the anchor-origin
+   validator is assumed to look at the value, not at member order).  Anchoring the re-read
+   operation once more gives the same bytes.  The two byte strings apply to the same state (below,
+   C08_*_anchored_applies_alike): proved for deltas of dedicated actions; for deltas containing
+   ietf-json-patch the composer's behaviour under re-ordering is decided by correspondence. *)
+Theorem C08_deactivate_anchored : forall cfg u n o t bytes p b',
+  parse_operation cfg u n o t bytes false = Some p -> p_type p = "deactivate" ->
+  anchored_bytes p = Some b' -> (Z.of_nat (String.length b') <= P_MaxOperationSize cfg)%Z ->
+  parse_operation cfg u n o t b' false = Some p.
+Proof. exact deactivate_anchored. Qed.
+Print Assumptions C08_deactivate_anchored.
+
+Theorem C08_update_anchored : forall cfg u n o t bytes p b',
+  parse_operation cfg u n o t bytes false = Some p -> p_type p = "update" ->
+  anchored_bytes p = Some b' -> (Z.of_nat (String.length b') <= P_MaxOperationSize cfg)%Z ->
+  exists d d', p_delta p = Some d /\
+    parse_operation cfg u n o t b' false =
+      Some {| p_type := p_type p; p_suffix := p_suffix p; p_origin := p_origin p; p_reveal := p_reveal p;
+              p_signed := p_signed p; p_delta := Some d'; p_suffix_data := p_suffix_data p;
+              p_time_args := p_time_args p; p_origin_arg := p_origin_arg p |} /\
+    d_update_c d' = d_update_c d /\ Forall2 jequiv (d_patches d) (d_patches d').
+Proof. exact update_anchored. Qed.
+Print Assumptions C08_update_anchored.
+
+Theorem C08_recover_anchored : forall cfg u n o t bytes p b',
+  parse_operation cfg u n o t bytes false = Some p -> p_type p = "recover" ->
+  anchored_bytes p = Some b' -> (Z.of_nat (String.length b') <= P_MaxOperationSize cfg)%Z ->
+  exists d d', p_delta p = Some d /\
+    parse_operation cfg u n o t b' false =
+      Some {| p_type := p_type p; p_suffix := p_suffix p; p_origin := p_origin p; p_reveal := p_reveal p;
+              p_signed := p_signed p; p_delta := Some d'; p_suffix_data := p_suffix_data p;
+              p_time_args := p_time_args p; p_origin_arg := p_origin_arg p |} /\
+    d_update_c d' = d_update_c d /\ Forall2 jequiv (d_patches d) (d_patches d').
+Proof. exact recover_anchored. Qed.
+Print Assumptions C08_recover_anchored.
+
+Theorem C08_create_anchored : forall cfg u n o t,
+  (forall a b, jequiv a b -> o a = o b) ->
+  forall bytes p b',
+  parse_operation cfg u n o t bytes false = Some p -> p_type p = "create" ->
+  anchored_bytes p = Some b' -> (Z.of_nat (String.length b') <= P_MaxOperationSize cfg)%Z ->
+  exists d d' s o',
+    p_delta p = Some d /\ p_suffix_data p = Some s /\ jequiv (sd_origin s) o' /\
+    parse_operation cfg u n o t b' false =
+      Some {| p_type := "create"; p_suffix := p_suffix p; p_origin := o'; p_reveal := ""; p_signed := "";
+              p_delta := Some d';
+              p_suffix_data := Some {| sd_delta_hash := sd_delta_hash s; sd_recovery_c := sd_recovery_c s;
+                                       sd_origin := o'; sd_type := sd_type s |};
+              p_time_args := None; p_origin_arg := Some o' |} /\
+    d_update_c d' = d_update_c d /\ Forall2 jequiv (d_patches d) (d_patches d').
+Proof. exact create_anchored. Qed.
+Print Assumptions C08_create_anchored.
+
+Theorem C08_anchoring_is_idempotent : forall p p' d d',
+  (p_type p = "update" \/ p_type p = "recover") -> p_delta p = Some d ->
+  p' = {| p_type := p_type p; p_suffix := p_suffix p; p_origin := p_origin p; p_reveal := p_reveal p;
+          p_signed := p_signed p; p_delta := Some d'; p_suffix_data := p_suffix_data p;
+          p_time_args := p_time_args p; p_origin_arg := p_origin_arg p |} ->
+  d_update_c d' = d_update_c d -> Forall2 jequiv (d_patches d) (d_patches d') ->
+  anchored_bytes p' = anchored_bytes p.
+Proof. exact anchored_bytes_stable. Qed.
+Print Assumptions C08_anchoring_is_idempotent.
+
+Theorem C08_anchoring_is_idempotent_create : forall p d d' s o',
+  p_type p = "create" -> p_delta p = Some d -> p_suffix_data p = Some s -> jequiv (sd_origin s) o' ->
+  d_update_c d' = d_update_c d -> Forall2 jequiv (d_patches d) (d_patches d') ->
+  anchored_bytes {| p_type := "create"; p_suffix := p_suffix p; p_origin := o'; p_reveal := ""; p_signed := "";
+                    p_delta := Some d';
+                    p_suffix_data := Some {| sd_delta_hash := sd_delta_hash s; sd_recovery_c := sd_recovery_c s;
+                                             sd_origin := o'; sd_type := sd_type s |};
+                    p_time_args := None; p_origin_arg := Some o' |} = anchored_bytes p.
+Proof. exact anchored_bytes_stable_create. Qed.
+Print Assumptions C08_anchoring_is_idempotent_create.
+
+(* ... and apply to the same state: at byte level (the applier derives its view from the bytes with
+   the parser mirror in batch mode), on states equal up to the member order of their documents
+   (rm_rel: every other field equal), the request and its anchored form are both refused or give
+   states equal up to member order.  Deltas of dedicated actions (dedicated: not ietf-json-patch). *)
+Theorem C08_update_anchored_applies_alike : forall cfg u n o t bytes p b' sig_ok tm num ver canon equiv rm rm',
+  parse_operation cfg u n o t bytes false = Some p -> p_type p = "update" ->
+  anchored_bytes p = Some b' -> (Z.of_nat (String.length b') <= P_MaxOperationSize cfg)%Z ->
+  (forall d, p_delta p = Some d -> Forall dedicated (d_patches d)) ->
+  rm_rel rm rm' ->
+  opt_rm_rel (apply_bytes cfg u n TUpdate bytes sig_ok tm num ver canon equiv rm)
+             (apply_bytes cfg u n TUpdate b' sig_ok tm num ver canon equiv rm').
+Proof. exact update_anchored_applies_alike. Qed.
+Print Assumptions C08_update_anchored_applies_alike.
+
+Theorem C08_recover_anchored_applies_alike : forall cfg u n o t bytes p b' sig_ok tm num ver canon equiv rm rm',
+  parse_operation cfg u n o t bytes false = Some p -> p_type p = "recover" ->
+  anchored_bytes p = Some b' -> (Z.of_nat (String.length b') <= P_MaxOperationSize cfg)%Z ->
+  (forall d, p_delta p = Some d -> Forall dedicated (d_patches d)) ->
+  rm_rel rm rm' ->
+  opt_rm_rel (apply_bytes cfg u n TRecover bytes sig_ok tm num ver canon equiv rm)
+             (apply_bytes cfg u n TRecover b' sig_ok tm num ver canon equiv rm').
+Proof. exact recover_anchored_applies_alike. Qed.
+Print Assumptions C08_recover_anchored_applies_alike.
+
+Theorem C08_create_anchored_applies_alike : forall cfg u n o t,
+  (forall a b, jequiv a b -> o a = o b) ->
+  forall bytes p b' sig_ok tm num ver canon equiv rm rm',
+  parse_operation cfg u n o t bytes false = Some p -> p_type p = "create" ->
+  anchored_bytes p = Some b' -> (Z.of_nat (String.length b') <= P_MaxOperationSize cfg)%Z ->
+  (forall d, p_delta p = Some d -> Forall dedicated (d_patches d)) ->
+  rm_rel rm rm' ->
+  opt_rm_rel (apply_bytes cfg u n TCreate bytes sig_ok tm num ver canon equiv rm)
+             (apply_bytes cfg u n TCreate b' sig_ok tm num ver canon equiv rm').
+Proof. exact create_anchored_applies_alike. Qed.
+Print Assumptions C08_create_anchored_applies_alike.
+
+Theorem C08_deactivate_anchored_applies_alike : forall cfg u n o t bytes p b' sig_ok tm num ver canon equiv rm,
+  parse_operation cfg u n o t bytes false = Some p -> p_type p = "deactivate" ->
+  anchored_bytes p = Some b' -> (Z.of_nat (String.length b') <= P_MaxOperationSize cfg)%Z ->
+  apply_bytes cfg u n TDeactivate bytes sig_ok tm num ver canon equiv rm =
+  apply_bytes cfg u n TDeactivate b' sig_ok tm num ver canon equiv rm.
+Proof. exact deactivate_anchored_applies_alike. Qed.
+Print Assumptions C08_deactivate_anchored_applies_alike.
+
+(* whole histories: every request replaced by its anchored form (astep_ok: accepted at request time,
+   anchored form within the size limit, delta of dedicated actions), folded by the byte-level
+   applier over states equal up to member order: the resolved states are equal up to member order *)
+Theorem C08_history_anchored_resolves_alike : forall cfg u n o t,
+  (forall a b, jequiv a b -> o a = o b) ->
+  forall steps rm rm',
+  Forall (astep_ok cfg u n o t) steps -> rm_rel rm rm' ->
+  rm_rel (fold_left (step_with cfg u n as_bytes) steps rm) (fold_left (step_with cfg u n as_anchored) steps rm').
+Proof. exact history_anchored_resolves_alike. Qed.
+Print Assumptions C08_history_anchored_resolves_alike.
 
 (* a reveal value computed from a key validates against that key (what builders rely on when
    they derive the reveal value from the signer's key and the operation commitment's algorithm) *)
